@@ -16,6 +16,7 @@ package basic
 import (
 	"encoding/json"
 	"fmt"
+	"io"
 	"sort"
 	"strings"
 	"sync"
@@ -24,6 +25,7 @@ import (
 	"unicode/utf8"
 
 	"github.com/tinode/chat/server/auth"
+	"github.com/tinode/chat/server/logs"
 	adapter "github.com/tinode/chat/server/db"
 	"github.com/tinode/chat/server/store"
 	"github.com/tinode/chat/server/store/types"
@@ -143,6 +145,9 @@ var (
 )
 
 func c12BasicBoot() error {
+	if logs.Warn == nil {
+		logs.Init(io.Discard, "stdFlags")
+	}
 	c12BasicOnce.Do(func() {
 		store.RegisterAdapter(c12BasicStore)
 		c12BasicErr = store.Store.Open(1, json.RawMessage(`{"uid_key":"la6YsO+bNX/+XIkOqc5Svw==","use_adapter":"c12basicmem"}`))
@@ -235,7 +240,7 @@ func c12BasicGen(rt *rapid.T) c12BasicCase {
 		}
 	}
 	n := rapid.IntRange(4, 10).Draw(rt, "n_ops")
-	kinds := []string{"add", "add", "add", "auth", "auth", "auth", "auth", "auth", "upd", "uniq"}
+	kinds := []string{"add", "add", "add", "auth", "auth", "auth", "auth", "auth", "upd", "uniq", "damage"}
 	// The generator keeps a rough idea of what is registered (assuming every add of a
 	// free name for a free user succeeds) only to steer the history towards collisions;
 	// the oracle does not use it.
@@ -290,6 +295,11 @@ func c12BasicGen(rt *rapid.T) c12BasicCase {
 			if rapid.IntRange(0, 2).Draw(rt, "keep_login") == 0 {
 				op.Name = -1
 			}
+		case "damage":
+			if steer && len(regUsers) > 0 {
+				op.U = rapid.SampledFrom(regUsers).Draw(rt, "dmg_user")
+			}
+			op.PwVar = rapid.IntRange(0, 5).Draw(rt, "dmg_kind")
 		case "uniq":
 			if steer && len(regNames) > 0 && rapid.Bool().Draw(rt, "uniq_taken") {
 				op.Name = rapid.SampledFrom(regNames).Draw(rt, "reg_name")
@@ -382,6 +392,7 @@ type c12BasicEntry struct {
 	login   string // base (lower-case) spelling
 	spelled string // spelling used at registration
 	pw      string
+	damaged bool // the stored hash was damaged behind the authenticator's back: nothing authenticates
 }
 
 func c12BasicExec(t *testing.T, c c12BasicCase) (o kit.Outcome) {
@@ -501,6 +512,14 @@ func c12BasicExec(t *testing.T, c c12BasicCase) (o kit.Outcome) {
 				o.Viol = kit.V("accepted-without-record", "step %d: Authenticate(%q) returned no error but rec=%v challenge=%q", step, login, rec, chal)
 				return o
 			}
+			if e != nil && e.damaged {
+				if ok {
+					o.Viol = kit.V("authenticated:damaged-hash", "step %d: the stored secret of login %q is not a well-formed bcrypt hash, yet Authenticate(%q) succeeded as uid %d", step, e.login, login+":"+attempt, uint64(rec.Uid))
+					return o
+				}
+				cls["auth:damaged-hash:refused"] = true
+				continue
+			}
 			switch {
 			case e == nil:
 				if ok {
@@ -548,8 +567,45 @@ func c12BasicExec(t *testing.T, c c12BasicCase) (o kit.Outcome) {
 					cls["auth:case-variant-login:accepted"] = true
 				}
 			}
+		case "damage":
+			// the stored secret of the user's record stops being a well-formed bcrypt hash (a truncated
+			// column, an import, a legacy row): from then on no password authenticates that login
+			cur := byUser[uid]
+			if cur == nil {
+				continue
+			}
+			c12BasicStore.mu.Lock()
+			for i := range c12BasicStore.rows {
+				r := &c12BasicStore.rows[i]
+				if r.uid != types.Uid(uid) || r.scheme != "basic" {
+					continue
+				}
+				switch op.PwVar {
+				case 0:
+					r.secret = nil
+				case 1:
+					r.secret = []byte{}
+				case 2:
+					r.secret = r.secret[:len(r.secret)/2]
+				case 3:
+					r.secret = append([]byte("$9z$"), r.secret[4:]...)
+				case 4:
+					r.secret = append([]byte("$2a$99$"), r.secret[7:]...)
+				default:
+					r.secret = []byte(cur.pw) // the password itself where the hash should be
+				}
+			}
+			c12BasicStore.mu.Unlock()
+			cur.damaged = true
+			cls["damage:stored-hash"] = true
 		case "upd":
 			cur := byUser[uid]
+			if cur != nil && cur.damaged {
+				cur.damaged = false // (whatever happens below, the record is rewritten or stays damaged: not judged further)
+				a.UpdateRecord(&auth.Rec{Uid: types.Uid(uid)}, []byte(login+":"+pw), "")
+				o.Skip = true
+				return o
+			}
 			_, err := a.UpdateRecord(&auth.Rec{Uid: types.Uid(uid)}, []byte(login+":"+pw), "")
 			if cur == nil {
 				if err == nil {
